@@ -15,7 +15,15 @@ THEOREMS = [
     "Ural.Props.C15.inferOf_idempotent",
     "Ural.Props.C15.inferOf_is_iterated_step",
     "Ural.Props.C15.inferFuel_eq",
+    "Ural.Props.C15.infer_loop_spec",
+    "Ural.Props.C15.inferOf_hops_bounded",
+    "Ural.Props.C15.infer_hops_bounded",
     "Ural.Props.C15.infer_total",
+    "Ural.Props.C15.infer_shrinks",
+    "Ural.Props.C15.infer_of_cleaned",
+    "Ural.Props.C15.infer_redirection_target_spec",
+    "Ural.Props.C15.infer_step_embedded_of_clean",
+    "Ural.Props.C15.infer_result_chain_strict",
     "Ural.Props.C15.infer_fixed_point",
     "Ural.Props.C15.infer_step_fixed",
     "Ural.Props.C15.infer_is_iterated_step",
@@ -48,7 +56,8 @@ TABLE_OBLIGATIONS = [
     "Ural.Props.C15.cleaning_class_unchanged",
 ]
 RULE = (
-    "A case is one url; infer_redirection is run with recursive=True and recursive=False (model vs implementation), "
+    "A case is one url; infer_redirection is run with recursive=True and recursive=False, and the one-hop function "
+    "infer_redirection_target the loop calls (since 0c9bfa3) is run on it (model vs implementation), "
     "the two regexes are run on it (hand matchers vs Python's re on the module's own compiled patterns), and the oracle "
     "checks termination within len(url) steps, embeddedness of every step, the fixed point and the iteration law. "
     "Grammar of the quantifier: 24 keys (12 redirect keys, upper/mixed case, look-alikes incl. the four non-ASCII code points "
@@ -150,8 +159,13 @@ def run_infer(u, recursive):
 
 
 def _run_infer(u, recursive):
-    global _timeouts
     from ural import infer_redirection
+
+    return _run_guarded(lambda: infer_redirection(u, recursive=recursive))
+
+
+def _run_guarded(call):
+    global _timeouts
 
     old = sys.getrecursionlimit()
     try:
@@ -163,7 +177,7 @@ def _run_infer(u, recursive):
     try:
         if timer:
             signal.setitimer(signal.ITIMER_REAL, TIMER_AFTER_A_TIMEOUT if _timeouts else TIMER)
-        return infer_redirection(u, recursive=recursive)
+        return call()
     except RecursionError:
         return {"error": "RecursionError"}
     except _Timeout:
@@ -501,6 +515,7 @@ def ops(case):
         {"f": "infer_redirection", "url": u, "recursive": True},
         {"f": "infer_redirection", "url": u, "recursive": False},
         {"f": "infer_fuel", "url": u},
+        {"f": "infer_redirection_target", "url": u},
         {"f": "redirect_search", "s": u},
         {"f": "domain_split", "s": u},
     ]
@@ -520,9 +535,24 @@ def impl(case):
         r,
         run_infer(u, False),
         r,
+        one_hop(m, u),
         [mo.group(1), mo.group(2)] if mo else None,
         sp[1] if len(sp) > 1 else None,
     ]
+
+
+def one_hop(m, u):
+    """infer_redirection_target(u) of the running module (the one-hop function the loop of infer_redirection calls since
+    0c9bfa3), compared with the model's inferRedirectionTarget.  A tree that spells the hop differently (helper renamed or
+    inlined: not part of the package's exported API) is read through the non-recursive form instead — a followed target is
+    strictly shorter than the url, so `r == u` is exactly 'nothing followed'."""
+    f = getattr(m, "infer_redirection_target", None)
+    if f is not None:
+        return _run_guarded(lambda: f(u))
+    r = run_infer(u, False)
+    if isinstance(r, str):
+        return None if r == u else r
+    return r
 
 
 # --------------------------------------------------------------------------------------
